@@ -461,6 +461,9 @@ pub fn gen_proxy(seed: u64, prop: &str, tier: &str) -> Value {
             steps.push(json!({"t": "clear_faults"}));
         }
     }
+    if prop == "C01" && r.chance(1, 5) {
+        return gen_policy_swap_storm(seed, &mut r, prop, tier);
+    }
     if prop == "C02" {
         return gen_c02(seed, &mut r, procs, o, dup_names, tier);
     }
@@ -493,6 +496,61 @@ pub fn gen_proxy(seed: u64, prop: &str, tier: &str) -> Value {
         "knobs": knobs, "procs": procs, "users": users_json(), "steps": steps, "oracles": oracles,
         "config": {"pollKeyStatusIntervalInSeconds": 1 + r.below(15)}, "settle_ms": 3000,
         "faulty": false
+    })
+}
+
+/// Policy replaced under load: the host swaps between rule documents that ALL deny the callers (only the rule ids
+/// and irrelevant details differ) while streams of requests run across the key keeper's polls, and the key keeper is
+/// the slow task of the run, so that whatever it does in several steps (record the new rule id, store the new rules,
+/// publish modes) is stretched over many request arrivals. Every request must be refused by every document.
+fn gen_policy_swap_storm(seed: u64, r: &mut Rng, prop: &str, tier: &str) -> Value {
+    let procs = json!([
+        {"pid": 1000, "tid": 1000, "uid": 0, "gid": 0, "exe": "/usr/sbin/waagent", "cmd": ["waagent", "-daemon"], "known": true},
+        {"pid": 1010, "tid": 1010, "uid": 1001, "gid": 1001, "exe": "/usr/bin/curl", "cmd": ["curl", "-s"], "known": true},
+        {"pid": 1020, "tid": 1020, "uid": 0, "gid": 0, "exe": "/usr/bin/python3", "cmd": ["python3", "job.py"], "known": true}
+    ]);
+    let deny_doc = |serial: u64, r: &mut Rng| -> Value {
+        let mut rules = serde_json::Map::new();
+        for ep in ["imds", "wireserver", "hostga"] {
+            let mut item = grant_all_item(&format!("{}-deny-{}", ep, serial), "enforce", "deny", None);
+            item["rules"]["roleAssignments"] = json!([]); // nobody is granted anything
+            if r.chance(1, 3) {
+                item["rules"]["privileges"] = json!([{"name": format!("p{}", serial), "path": "/metadata"}]);
+            }
+            rules.insert(ep.to_string(), item);
+        }
+        doc_v2(true, Some(Value::Object(rules)))
+    };
+    let mut steps = Vec::new();
+    steps.push(json!({"t": "doc", "doc": deny_doc(0, r)}));
+    steps.push(json!({"t": "wait_polls", "n": 2, "max_s": 200}));
+    let swaps = 1 + r.below(if tier == "thorough" { 5 } else { 3 });
+    let mut tokn = 0u64;
+    for s in 0..swaps {
+        steps.push(json!({"t": "doc", "doc": deny_doc(s + 1, r)}));
+        let mut conns = Vec::new();
+        for _ in 0..1 + r.below(3) {
+            let dst = *r.pick(&["imds", "imds", "wire", "ga"]);
+            let nreq = 40 + r.below(160);
+            let mut reqs = Vec::new();
+            for _ in 0..nreq {
+                tokn += 1;
+                reqs.push(json!({"method": "GET", "target": format!("/metadata/instance?n={}", tokn), "headers": [["Host", host_name_of(dst)], ["Metadata", "true"]], "tok": format!("t{}", tokn)}));
+            }
+            conns.push(json!({"proc": *r.pick(&[0u64, 2, 2]), "dst": dst, "start_ms": r.below(300), "pipeline": false, "gap_ms": 2 + r.below(25), "reqs": reqs}));
+        }
+        steps.push(json!({"t": "clients", "conns": conns}));
+    }
+    let mut knobs = gen_knobs(r, false);
+    knobs["sched.profile"] = json!(1);
+    knobs["sched.victim_a"] = json!(6); // the key keeper task (spawned after the six state actors)
+    knobs["sched.victim_b"] = json!(-1);
+    knobs["sched.victim_ms"] = json!(*r.pick(&[3u64, 10, 25, 60]));
+    let oracles: Vec<&str> = if prop == "C11" { vec!["C11", "C01"] } else { vec!["C01", "C03"] };
+    json!({
+        "scenario": format!("proxy:{}", prop), "seed": seed, "family": "proxy", "prop": prop, "variant": "policy_swap_storm",
+        "knobs": knobs, "procs": procs, "users": users_json(), "steps": steps, "oracles": oracles,
+        "config": {"pollKeyStatusIntervalInSeconds": 1}, "settle_ms": 3000, "faulty": false
     })
 }
 
@@ -690,7 +748,7 @@ fn gen_c07(seed: u64, r: &mut Rng, procs: Value, tier: &str) -> Value {
             if dst != "direct" && r.chance(1, 5) {
                 c["reqs"] = json!([]);
             } else if dst != "direct" && r.chance(1, 8) {
-                c["close"] = json!("reset_after_send");
+                c["close"] = json!(if r.chance(1, 2) { "reset_after_send".to_string() } else { format!("{}:{}:{}", *r.pick(&["reset_after_send", "fin_after_send"]), *r.pick(&[0u64, 0, 1, 4]), r.below(30)) });
             }
             conns.push(c);
         }
@@ -710,6 +768,7 @@ fn gen_c07(seed: u64, r: &mut Rng, procs: Value, tier: &str) -> Value {
 /// C11: one mode per endpoint per phase, bursts of identical denials from one caller and from concurrent
 /// connections, mixtures of allowed and denied; the published summaries are collected at the end.
 fn gen_c11(seed: u64, r: &mut Rng, procs: Value, tier: &str) -> Value {
+    let upstream_faults = r.chance(1, 3);
     // callers that differ only in one attribute the summary is keyed by: same user and executable, command
     // lines sharing a long prefix (java -cp <classpath> MainA / MainB), or same command line, other user
     let mut procs = procs;
@@ -773,7 +832,13 @@ fn gen_c11(seed: u64, r: &mut Rng, procs: Value, tier: &str) -> Value {
                 }
             }
         }
+        if upstream_faults {
+            gen_upstream_faults(r, &mut steps);
+        }
         steps.push(json!({"t": "clients", "conns": conns}));
+        if upstream_faults {
+            steps.push(json!({"t": "clear_faults"}));
+        }
     }
     steps.push(json!({"t": "sleep", "ms": 125_000}));
     steps.push(json!({"t": "collect_status"}));
@@ -789,6 +854,7 @@ fn gen_c11(seed: u64, r: &mut Rng, procs: Value, tier: &str) -> Value {
 /// body, on exempt and non-exempt method/URL combinations (with case variants of the exempt URLs), all on
 /// attributed, authorised connections so that the limit is the only reason to refuse.
 fn gen_c15(seed: u64, r: &mut Rng, procs: Value, tier: &str) -> Value {
+    let upstream_faults = r.chance(1, 3);
     const LOW: u64 = 100 * 1024;
     const LARGE: u64 = 100 * 1024 * 1024;
     let mut steps = Vec::new();
@@ -853,7 +919,13 @@ fn gen_c15(seed: u64, r: &mut Rng, procs: Value, tier: &str) -> Value {
             conns.push(json!({"proc": 0, "dst": "wire", "start_ms": r.below(10), "pipeline": false, "close": "normal",
                 "reqs": [{"method": method, "target": target, "headers": [["Host", "168.63.129.16"], ["Content-Length", (LARGE + 1 + r.below(1000)).to_string()], ["x-ms-version", "2012-11-30"]], "tok": format!("t{}", tokn), "declared_only": true}]}));
         }
+        if upstream_faults {
+            gen_upstream_faults(r, &mut steps);
+        }
         steps.push(json!({"t": "clients", "conns": conns, "max_s": 3000}));
+        if upstream_faults {
+            steps.push(json!({"t": "clear_faults"}));
+        }
     }
     let mut knobs = gen_knobs(r, false);
     if any_huge {
